@@ -689,8 +689,69 @@ func (fr *frame) callFunc(st *State, call *ast.CallExpr, fn *types.Func, recv *V
 	if decl := fc.reg.funcDecls[fn.FullName()]; decl != nil && decl.Body != nil {
 		return fr.inlineCall(st, call, fn, decl, recv, args)
 	}
-	_ = sig
+	// a library function without model whose arguments are all values (numbers, strings, booleans - nothing it
+	// could write through) and that belongs to a value-computing standard package: its results are arbitrary,
+	// modelled state is untouched (listed as an assumption). Without this, a harmless edit that formats a log
+	// text with strings.ToUpper or reads time.Now() would detach the contract of the function it is made in.
+	if fn.Pkg() != nil && !strings.HasPrefix(fn.Pkg().Path(), modulePath) && valueOnlyCall(sig, recv, args) && pureLibrary(fn) {
+		fc.reg.assumptions["call of "+full+" (no model): arguments are values, the results are arbitrary, modelled state is untouched"] = true
+		return fr.opaqueResults(st, sig, "lib")
+	}
 	panic(unsupported("call of " + full + " (no contract, no model, not inlinable)"))
+}
+
+func pureLibrary(fn *types.Func) bool {
+	switch fn.Pkg().Path() {
+	case "strings", "strconv", "math", "math/bits", "unicode", "unicode/utf8", "path", "path/filepath", "time", "net/url", "html", "regexp/syntax":
+		return true
+	case "fmt":
+		return strings.HasPrefix(fn.Name(), "Sprint") || fn.Name() == "Errorf"
+	case "errors":
+		return fn.Name() == "New"
+	case "os":
+		return fn.Name() == "Getenv" || fn.Name() == "Getpid" || fn.Name() == "Hostname"
+	case "runtime":
+		return fn.Name() == "NumCPU" || fn.Name() == "NumGoroutine" || fn.Name() == "GOMAXPROCS"
+	}
+	return false
+}
+
+func valueOnlyCall(sig *types.Signature, recv *Value, args []*Value) bool {
+	isValue := func(t types.Type) bool {
+		switch u := t.Underlying().(type) {
+		case *types.Basic:
+			return true
+		case *types.Struct:
+			// time.Time, time.Duration-like value structs of the library itself
+			_ = u
+			if n, ok := t.(*types.Named); ok && n.Obj().Pkg() != nil && n.Obj().Pkg().Path() == "time" {
+				return true
+			}
+		}
+		return false
+	}
+	if r := sig.Recv(); r != nil && !isValue(r.Type()) {
+		return false
+	}
+	for i := 0; i < sig.Params().Len(); i++ {
+		t := sig.Params().At(i).Type()
+		if sig.Variadic() && i == sig.Params().Len()-1 {
+			t = t.(*types.Slice).Elem()
+			if _, ok := t.Underlying().(*types.Interface); ok {
+				// ...interface{} (fmt): the dynamic values must be values too
+				for _, a := range args[min(i, len(args)):] {
+					if a == nil || a.K != VIface && a.K != VScalar {
+						return false
+					}
+				}
+				continue
+			}
+		}
+		if !isValue(t) {
+			return false
+		}
+	}
+	return true
 }
 
 func (fr *frame) opaqueResults(st *State, sig *types.Signature, base string) []*Value {
